@@ -27,10 +27,19 @@ const tag = "verif.tag"
 func ffEvent(stamp, size int) []byte {
 	b := []byte{0x92, 0xce, byte(stamp >> 24), byte(stamp >> 16), byte(stamp >> 8), byte(stamp), 0x81, 0xa1, 'm'}
 	pay := size - len(b) - 2
-	if pay < 0 || pay > 255 {
+	if pay < 0 {
 		panic("size")
 	}
-	b = append(b, 0xd9, byte(pay))
+	switch {
+	case pay <= 255:
+		b = append(b, 0xd9, byte(pay))
+	case pay-1 <= 65535: // str16: one more header byte
+		pay--
+		b = append(b, 0xda, byte(pay>>8), byte(pay))
+	default: // str32: three more header bytes
+		pay -= 3
+		b = append(b, 0xdb, byte(pay>>24), byte(pay>>16), byte(pay>>8), byte(pay))
+	}
 	return append(b, bytes.Repeat([]byte{'x'}, pay)...)
 }
 
